@@ -576,6 +576,7 @@ type FuncContract struct {
 	Refines  string   // interface-method contract this implementation must satisfy
 	Params   []string // parameter names (interface contracts)
 	Witness  string   // Go function (replay_helpers.go) running known-tricky inputs on the real code
+	WitnessFor [][2]string // (obligation name substring, witness function): more specific witnesses
 	Applies  string   // spec predicate that this func(rune) bool computes (links function values to the spec)
 	Dead     []string // source lines expected to be unreachable (defensive code behind an assumed contract)
 	Line     int
@@ -861,7 +862,13 @@ func (cs *Contracts) parse(path, data string) error {
 					cur.Params = append(cur.Params, strings.TrimSpace(a))
 				}
 			case "witness":
-				cur.Witness = strings.TrimSpace(body)
+				// witness Fn            : the function's default witness
+				// witness Fn for TEXT   : the witness for obligations whose name contains TEXT
+				if i := strings.Index(body, " for "); i >= 0 {
+					cur.WitnessFor = append(cur.WitnessFor, [2]string{strings.TrimSpace(body[i+5:]), strings.TrimSpace(body[:i])})
+				} else {
+					cur.Witness = strings.TrimSpace(body)
+				}
 			case "applies":
 				cur.Applies = strings.TrimSpace(body)
 			case "deadcode":
@@ -921,6 +928,11 @@ func (cs *Contracts) parse(path, data string) error {
 						return fail(fmt.Errorf("bad anchor"))
 					}
 					cl.Kind, cl.At, b = "assertcall", strings.Join(strings.Fields(at), ""), rest
+					cl.AtOrd = 0 // 0 = every matching call; #k = only the k-th matching call site in source order
+					if strings.HasPrefix(b, "#") {
+						fmt.Sscanf(b, "#%d", &cl.AtOrd)
+						b = strings.TrimSpace(b[strings.IndexAny(b, " \t"):])
+					}
 				} else if kw == "assert" || kw == "assume" || kw == "cover" {
 					// assert at "source line text"[#k] [name] expr
 					if !strings.HasPrefix(b, "at ") {
